@@ -3,6 +3,10 @@ package checks
 import (
 	"bytes"
 	"crypto"
+	"crypto/ecdsa"
+	"crypto/ed25519"
+	"crypto/elliptic"
+	"crypto/rsa"
 	"encoding/asn1"
 	"fmt"
 	"math/big"
@@ -207,9 +211,18 @@ func otherKeys(kp keyPair) []crypto.PublicKey {
 	return r
 }
 
+func malformedKeys() []crypto.PublicKey {
+	return []crypto.PublicKey{
+		ed25519.PublicKey{}, ed25519.PublicKey(make([]byte, 31)), ed25519.PublicKey(make([]byte, 33)), ed25519.PublicKey(nil),
+		(*ecdsa.PublicKey)(nil), &ecdsa.PublicKey{}, &ecdsa.PublicKey{Curve: elliptic.P256()},
+		(*rsa.PublicKey)(nil), &rsa.PublicKey{}, &rsa.PublicKey{N: big.NewInt(1), E: 3},
+		ecdsa.PublicKey{}, rsa.PublicKey{}, []byte{1, 2, 3}, new(int),
+	}
+}
+
 func TestC02_Splices(t *testing.T) {
 	st := NewStats("C02", "TestC02_Splices", "rapid: two signed tokens (same or different key / algorithm / claims); splice protected, payload or signature content between them; replace the signature by zeros, random bytes, the other token's signature, right-length wrong bytes, or other spellings of the same (r,s) (ASN.1 DER, DER plus junk, zero-padded / zero-stripped halves, doubled); 1..8 random byte edits; protected header / payload re-encoded into different but equivalent bytes (non-preferred widths, long or indefinite map head, permuted keys) under the original signature; bytes appended to / cut from the payload or protected-header content with the length prefix adjusted; correctly signed envelopes that carry the algorithm only in the unprotected header or nowhere, a nil payload, an empty signature; verification with every other key (same type, other types, nil, non-keys). Oracle: independent splitter decides whether covered bytes changed; wrong key never verifies; alg-less/payload-less/signature-less never verify. Non-trivial = the altered token decodes; distinct = (alg, mutation kind, details)")
-	st.Require = []string{"splice-payload", "splice-protected", "splice-signature", "sig-zero", "sig-random", "byte-edits", "alg-unprotected-only", "alg-nowhere", "nil-payload", "nil-payload-original-sig", "empty-signature", "wrong-key", "decoded-verify-failed", "equiv-protected", "equiv-payload", "extend-payload", "extend-protected", "sig-reencode"}
+	st.Require = []string{"splice-payload", "splice-protected", "splice-signature", "sig-zero", "sig-random", "byte-edits", "alg-unprotected-only", "alg-nowhere", "nil-payload", "nil-payload-original-sig", "empty-signature", "wrong-key", "decoded-verify-failed", "equiv-protected", "equiv-payload", "extend-payload", "extend-protected", "sig-reencode", "prefix-payload"}
 	defer st.Flush(t)
 	rapid.Check(t, func(t *rapid.T) {
 		algA := rapid.SampledFrom([]int64{icose.EdDSA, icose.EdDSA, icose.ES256, icose.ES256, icose.PS256, icose.ES384, icose.ES512, icose.PS384, icose.PS512}).Draw(t, "algA")
@@ -220,7 +233,7 @@ func TestC02_Splices(t *testing.T) {
 			t.Fatalf("cannot sign: %v", err)
 		}
 		otherTrafficEvery(4)
-		kind := rapid.SampledFrom([]string{"splice-payload", "splice-protected", "splice-signature", "sig-zero", "sig-random", "sig-flip", "byte-edits", "alg-unprotected-only", "alg-nowhere", "nil-payload", "nil-payload-original-sig", "nil-payload-original-sig", "empty-signature", "wrong-key", "reencode", "equiv-protected", "equiv-protected", "equiv-payload", "extend-payload", "extend-payload", "extend-protected", "shrink-payload", "sig-reencode", "sig-reencode"}).Draw(t, "kind")
+		kind := rapid.SampledFrom([]string{"splice-payload", "splice-protected", "splice-signature", "sig-zero", "sig-random", "sig-flip", "byte-edits", "alg-unprotected-only", "alg-nowhere", "nil-payload", "nil-payload-original-sig", "nil-payload-original-sig", "empty-signature", "wrong-key", "reencode", "equiv-protected", "equiv-protected", "equiv-payload", "extend-payload", "extend-payload", "extend-protected", "shrink-payload", "sig-reencode", "sig-reencode", "prefix-payload", "prefix-payload"}).Draw(t, "kind")
 		var mut []byte
 		detail := ""
 		rebuild := func(prot, pay, sig []byte) []byte {
@@ -347,6 +360,18 @@ func TestC02_Splices(t *testing.T) {
 			} else {
 				mut = rebuild(a.Parts.Protected, alt, a.Parts.Signature)
 			}
+		case "prefix-payload":
+			// something well-formed put IN FRONT of the claims map (a tag head,
+			// nested tag heads) or around it, the length prefix adjusted: a
+			// decoder that skips it must not verify the skipped-over bytes away
+			pre := rapid.SampledFrom([][]byte{{0xc6}, {0xd9, 0xd9, 0xf7}, {0xd8, 0x18}, {0xc6, 0xc6}, {0xd9, 0xd9, 0xf7, 0xd9, 0xd9, 0xf7}, {0xd8, 0x37}, {0xda, 0x00, 0x00, 0x00, 0x06}}).Draw(t, "prefix")
+			src := a.Parts.Payload
+			if genBool.Draw(t, "onprotected") {
+				mut = rebuild(append(append([]byte{}, pre...), a.Parts.Protected...), src, a.Parts.Signature)
+			} else {
+				mut = rebuild(a.Parts.Protected, append(append([]byte{}, pre...), src...), a.Parts.Signature)
+			}
+			detail = fmt.Sprintf("%x", pre)
 		case "sig-reencode":
 			// the same mathematical signature in OTHER bytes: ASN.1 DER of
 			// (r, s) as PKCS#11-style back-ends emit it, DER plus trailing
@@ -424,6 +449,17 @@ func TestC02_Splices(t *testing.T) {
 			for i, k := range otherKeys(kpA) {
 				if ev.Verify(k) == nil {
 					t.Fatalf("C02 violated: %s token verifies with a key other than the signer's (#%d, %T)", kpA.Name(), i, k)
+				}
+			}
+			// malformed key OBJECTS: whether the call errors or panics is not
+			// judged here, but it must not report the signature as good
+			for i, k := range malformedKeys() {
+				ok := func() (verified bool) {
+					defer func() { _ = recover() }()
+					return ev.Verify(k) == nil
+				}()
+				if ok {
+					t.Fatalf("C02 violated: %s token VERIFIES with malformed key object #%d (%T)", kpA.Name(), i, k)
 				}
 			}
 			st.Case(kpA.Name()+"|wrong-key|"+mA.ClassVector(), "wrong-key", icose.AlgName(algA))
